@@ -58,6 +58,28 @@ def l_text(l):
     return ", ".join(q_text(q) for q in l)
 
 
+def spell(text, rng):
+    """A different spelling of the same query list: random letter case of the keywords (the code
+    compares types and modifiers case-insensitively) and interpolation of types / features
+    (`Query text, including interpolated parts, is otherwise preserved`)."""
+    mode = rng.random()
+    if mode < 0.5:
+        return text
+    def word(m):
+        w = m.group(0)
+        r = rng.random()
+        if r < 0.3:
+            return w.upper()
+        if r < 0.5:
+            return w.capitalize()
+        if r < 0.7 and w in ("screen", "print", "all"):
+            return '#{"%s"}' % w
+        return w
+    out = re.sub(r"\b(screen|print|all|not|only|and|or)\b", word, text)
+    out = re.sub(r"\(f(\d)\)", lambda m: ('(#{"f%s"})' % m.group(1)) if rng.random() < 0.3 else m.group(0), out)
+    return out
+
+
 def l_enc(l):
     return ";".join(q_enc(q) for q in l) if l else "-"
 
@@ -143,11 +165,11 @@ def find_cases(nodes, ctx, found):
             find_cases(nd["children"], ctx, found)
 
 
-def source_for(idx, levels, inside_rule):
+def source_for(idx, levels, inside_rule, rng=None):
     inner = f"i: {idx}" if inside_rule else f"x {{ i: {idx} }}"
     s = inner
     for l in reversed(levels):
-        s = f"@media {l_text(l)} {{ {s} }}"
+        s = f"@media {spell(l_text(l), rng) if rng else l_text(l)} {{ {s} }}"
     return f"x {{ {s} }}" if inside_rule else s
 
 
@@ -187,13 +209,18 @@ def gen_cases(ck, tier):
     return cases
 
 
+N_PLAIN = 0   # cases below this index are printed verbatim; the rest get random keyword case / interpolation
+
+
 def evaluate(ck, cases, pool, direct_only=False):
     """Runs implementation and model on `cases`; returns list of failing cases (direct oracle)."""
     B = 100
     jobs, spans = [], []
     for off in range(0, len(cases), B):
         chunk = cases[off:off + B]
-        src = "\n".join(source_for(off + k, lv, ins) for k, (lv, ins) in enumerate(chunk))
+        srng = __import__("random").Random(ck.seed * 1000003 + off)
+        src = "\n".join(source_for(off + k, lv, ins, srng if (off + k) >= N_PLAIN else None)
+                        for k, (lv, ins) in enumerate(chunk))
         jobs.append(compile_job(src, syntax="scss"))
         spans.append((off, len(chunk)))
     answers = pool.map(jobs, timeout=20)
